@@ -110,13 +110,62 @@ pub fn run(ctx: &mut Ctx) {
         let mk = |rng: &mut Rng| -> Vec<f64> { if defaults { vec![1.0 / nv as f64; nv] } else { mk(rng) } };
         let wd = mk(rng);
         let wp: Vec<Vec<f64>> = (0..nstream).map(|_| mk(rng)).collect();
-        let wg: Vec<Vec<f64>> = (0..nstream).map(|_| mk(rng)).collect();
+        let mut wg: Vec<Vec<f64>> = (0..nstream).map(|_| mk(rng)).collect();
+        // the three kinds of weights are independent of each other: they are set in varying
+        // order, sometimes the GV weights of a stream equal its parameter weights, and
+        // sometimes the GV weights of a stream are left at their default (1/n)
+        let order = (idx / 7) % 4;
+        let mut gv_left_default = vec![false; nstream];
+        if !defaults {
+            for i in 0..nstream {
+                if rng.chance(0.15) {
+                    wg[i] = wp[i].clone();
+                } else if rng.chance(0.15) {
+                    gv_left_default[i] = true;
+                    wg[i] = vec![1.0 / nv as f64; nv];
+                }
+            }
+        }
         let mut setters_ok = true;
         if !defaults {
             setters_ok &= iw.set_duration(&wd).is_ok();
-            for i in 0..nstream {
-                setters_ok &= iw.set_parameter(i, &wp[i]).is_ok();
-                setters_ok &= iw.set_gv(i, &wg[i]).is_ok();
+            match order {
+                0 => {
+                    for i in 0..nstream {
+                        setters_ok &= iw.set_parameter(i, &wp[i]).is_ok();
+                        if !gv_left_default[i] {
+                            setters_ok &= iw.set_gv(i, &wg[i]).is_ok();
+                        }
+                    }
+                }
+                1 => {
+                    for i in 0..nstream {
+                        if !gv_left_default[i] {
+                            setters_ok &= iw.set_gv(i, &wg[i]).is_ok();
+                        }
+                        setters_ok &= iw.set_parameter(i, &wp[i]).is_ok();
+                    }
+                }
+                2 => {
+                    for i in 0..nstream {
+                        if !gv_left_default[i] {
+                            setters_ok &= iw.set_gv(i, &wg[i]).is_ok();
+                        }
+                    }
+                    for i in (0..nstream).rev() {
+                        setters_ok &= iw.set_parameter(i, &wp[i]).is_ok();
+                    }
+                }
+                _ => {
+                    for i in 0..nstream {
+                        setters_ok &= iw.set_parameter(i, &wp[i]).is_ok();
+                    }
+                    for i in 0..nstream {
+                        if !gv_left_default[i] {
+                            setters_ok &= iw.set_gv(i, &wg[i]).is_ok();
+                        }
+                    }
+                }
             }
         }
         let descr = |extra: J| {
